@@ -495,6 +495,19 @@ class Fn:
                                          for p in parts))
         if fname == "enumerate" and len(e.args) == 1:
             return self.hole(e, self.classify(e.args[0], env))
+        if fname == "getattr" and len(e.args) in (2, 3) and \
+                not e.keywords and isinstance(e.args[1], ast.Constant) and \
+                isinstance(e.args[1].value, str):
+            # getattr(x, 'name'[, default]) = x.name, or the default
+            attr = ast.Attribute(value=e.args[0], attr=e.args[1].value,
+                                 ctx=ast.Load())
+            ast.copy_location(attr, e)
+            classes = [self.classify(attr, env)]
+            if len(e.args) == 3:
+                classes.append(self.classify(e.args[2], env))
+            return self.hole(e, join_cls(classes))
+        if fname == "type" and len(e.args) == 1 and not e.keywords:
+            return self.hole(e, self.classify(e.args[0], env))
         if fname in CALLS:
             return self.hole(e, CALLS[fname])
         return self.hole(e, TAINTED)
@@ -834,9 +847,11 @@ def term(nodes):
 class Val:
     """valuation of a page: hole source text -> str, test source text -> bool,
     iterable source text -> list of row valuations (rows inherit)"""
-    def __init__(self, holes=None, conds=None, loops=None, parent=None):
+    def __init__(self, holes=None, conds=None, loops=None, parent=None,
+                 scope=None):
         self.h, self.c, self.l = holes or {}, conds or {}, loops or {}
         self.parent = parent
+        self.scope = scope      # names for evaluating a source text itself
 
     def get(self, kind, key):
         v = self
@@ -844,6 +859,19 @@ class Val:
             d = getattr(v, kind)
             if key in d:
                 return d[key]
+            v = v.parent
+        # not listed: evaluate the source text of the hole / test in the
+        # scope the harness supplied (the real objects of the request), so
+        # that a rewording of an expression needs no new table entry
+        v = self
+        while v is not None:
+            if v.scope is not None and kind in ("h", "c"):
+                try:
+                    return eval(key, {"__builtins__": {
+                        "getattr": getattr, "type": type, "len": len,
+                        "str": str, "hasattr": hasattr}}, dict(v.scope))
+                except Exception:   # noqa
+                    break
             v = v.parent
         raise KeyError("%s %r has no value in the valuation" % (kind, key))
 
